@@ -128,10 +128,11 @@ Primary(ct, r, g, b) ==
 
 \* the character set of a colour type as a set of <<character, colour>> pairs
 CharTable(ct) ==
-  CASE ct = "BinaryColor" -> { <<46, 0>>, <<35, 1>> }                       \* '.' Off, '#' On
-    [] ct = "Gray2" -> { <<HexCh(k), k>> : k \in 0..3 }                     \* radix 4
-    [] ct = "Gray4" -> { <<HexCh(k), k>> : k \in 0..15 }                    \* radix 16
-    [] ct = "Gray8" -> { <<HexCh(k), 17 * k>> : k \in 0..15 }               \* nibble doubled
+  CASE ct = "BinaryColor" -> { <<46, 0>>, <<35, 1>> }          \* '.' Off, '#' On   color_mapping.rs:23-38
+    [] ct = "Gray2" -> { <<HexCh(k), k>> : k \in 0..3 }        \* radix 4           color_mapping.rs:40-62
+    [] ct = "Gray4" -> { <<HexCh(k), k>> : k \in 0..15 }       \* radix 16          color_mapping.rs:40-63
+    [] ct = "Gray8" -> { <<HexCh(k), 17 * k>> : k \in 0..15 }  \* nibble doubled    color_mapping.rs:65-89
+    \* the RGB types: the 8 primaries, color_mapping.rs:91-132
     [] OTHER -> { <<75, Primary(ct, 0, 0, 0)>>, <<82, Primary(ct, 1, 0, 0)>>,      \* K R
                   <<71, Primary(ct, 0, 1, 0)>>, <<66, Primary(ct, 0, 0, 1)>>,      \* G B
                   <<89, Primary(ct, 1, 1, 0)>>, <<77, Primary(ct, 1, 0, 1)>>,      \* Y M
